@@ -258,4 +258,116 @@ theorem brackets_keys_shape : ∀ kv ∈ Gen.BRACKETS,
     (1 < kv.1.length ∧ '-' ∈ kv.1) ∨ kv.1 ∈ [['('], [')'], ['['], [']'], ['{'], ['}']] := by
   decide
 
+/-! ### `Except`, `mapM`, paths -/
+
+theorem mapM_ok_length {ε α β : Type} (f : α → Except ε β) : ∀ (l : List α) (r : List β),
+    l.mapM f = .ok r → r.length = l.length := by
+  intro l
+  induction l with
+  | nil => intro r h; simp [pure, Except.pure] at h; subst h; rfl
+  | cons a l ih =>
+    intro r h
+    rw [List.mapM_cons] at h
+    cases ha : f a with
+    | error e => simp [ha, bind, Except.bind] at h
+    | ok b =>
+      cases hl : l.mapM f with
+      | error e => simp [ha, hl, bind, Except.bind] at h
+      | ok bs =>
+        simp [ha, hl, bind, Except.bind, pure, Except.pure] at h
+        subst h
+        simp [ih bs hl]
+
+theorem bind_eq_ok {ε α β : Type} (x : Except ε α) (f : α → Except ε β) (b : β) (h : (x >>= f) = .ok b) :
+    ∃ a, x = .ok a ∧ f a = .ok b := by
+  cases x with
+  | error e => simp [bind, Except.bind] at h
+  | ok a => exact ⟨a, rfl, h⟩
+
+mutual
+theorem get?_isSome_of_mem_paths : (t : Tree) → ∀ p ∈ paths t, (t.get? p).isSome = true
+  | .leaf _ _ => by simp [paths, get?]
+  | .node f ks => by
+    intro p hp
+    simp only [paths, List.mem_cons] at hp
+    rcases hp with rfl | hp
+    · simp [get?]
+    · obtain ⟨j, k, q, rfl, hk, hq⟩ := mem_pathsL ks 0 p hp
+      simpa [get?, hk] using hq
+theorem mem_pathsL : (ts : List Tree) → (i : Nat) → ∀ p ∈ pathsL ts i,
+    ∃ j k q, p = (i + j) :: q ∧ ts[j]? = some k ∧ (k.get? q).isSome = true
+  | [], _ => by simp [pathsL]
+  | t :: ts, i => by
+    intro p hp
+    simp only [pathsL, List.mem_append, List.mem_map] at hp
+    rcases hp with ⟨q, hq, rfl⟩ | hp
+    · exact ⟨0, t, q, rfl, rfl, get?_isSome_of_mem_paths t q hq⟩
+    · obtain ⟨j, k, q, rfl, hk, hq⟩ := mem_pathsL ts (i + 1) p hp
+      exact ⟨j + 1, k, q, by simp; omega, by simpa using hk, hq⟩
+end
+
+theorem get?_isSome_of_mem_preorderP (t : Tree) (p : Path) (h : p ∈ preorderP t) : (t.get? p).isSome = true :=
+  get?_isSome_of_mem_paths t p ((Lemmas.Nav.preorderP_perm_paths t).subset h)
+
+theorem filterMap_length_of_isSome {α β : Type} (g : α → Option β) : ∀ l : List α, (∀ a ∈ l, (g a).isSome = true) →
+    (l.filterMap g).length = l.length := by
+  intro l
+  induction l with
+  | nil => simp
+  | cons a l ih =>
+    intro h
+    obtain ⟨b, hb⟩ := Option.isSome_iff_exists.1 (h a (by simp))
+    simp [hb, ih (fun x hx => h x (by simp [hx]))]
+
+theorem filter_length_add {α : Type} (p : α → Bool) (l : List α) :
+    (l.filter p).length + (l.filter fun a => !p a).length = l.length := by
+  induction l with
+  | nil => simp
+  | cons a l ih => by_cases h : p a <;> simp [h] <;> omega
+
+theorem bos_eq : "#BOS ".toList = ['#','B','O','S',' '] := rfl
+theorem eos_eq : "#EOS ".toList = ['#','E','O','S',' '] := rfl
+
+/-! ### export lines -/
+open TT.Lemmas.GramOut
+
+theorem splitWs_tabs (n : Nat) (rest : Str) : splitWs (exportTabs n ++ rest) = splitWs rest := by
+  have ht : pyIsSpace '\t' = true := by decide
+  unfold exportTabs
+  split
+  · simp only [List.cons_append, List.nil_append]; rw [splitWs_sep _ ht, splitWs_sep _ ht, splitWs_sep _ ht]
+  split
+  · simp only [List.cons_append, List.nil_append]; rw [splitWs_sep _ ht, splitWs_sep _ ht]
+  · simp only [List.cons_append, List.nil_append]; rw [splitWs_sep _ ht]
+
+theorem exportTabs_cons (n : Nat) : ∃ r, exportTabs n = '\t' :: r ∧ ∀ rest, splitWs (r ++ rest) = splitWs rest := by
+  have ht : pyIsSpace '\t' = true := by decide
+  unfold exportTabs
+  split
+  · exact ⟨_, rfl, fun rest => by simp only [List.cons_append, List.nil_append]; rw [splitWs_sep _ ht, splitWs_sep _ ht]⟩
+  split
+  · exact ⟨_, rfl, fun rest => by simp only [List.cons_append, List.nil_append]; rw [splitWs_sep _ ht]⟩
+  · exact ⟨_, rfl, fun rest => rfl⟩
+
+/-- a field followed by the tab padding -/
+theorem splitWs_word_tabs (a : Str) (n : Nat) (rest : Str) (ha : a ≠ [] ∧ ∀ c ∈ a, pyIsSpace c = false) :
+    splitWs (a ++ (exportTabs n ++ rest)) = a :: splitWs rest := by
+  obtain ⟨r, hr, hs⟩ := exportTabs_cons n
+  rw [hr, List.cons_append, splitWs_word_sep a _ '\t' (by decide) ha, hs]
+
+theorem splitWs_word_tab (a : Str) (rest : Str) (ha : a ≠ [] ∧ ∀ c ∈ a, pyIsSpace c = false) :
+    splitWs (a ++ ('\t' :: rest)) = a :: splitWs rest :=
+  splitWs_word_sep a _ '\t' (by decide) ha
+
+theorem printedLabel_of_ok (o : OutOpts) (t : Tree) (l : Str)
+    (h : getLabel o (t.setFields fun g => { g with edge := some (g.edge.getD DEFAULT_EDGE) }) = .ok l) :
+    printedLabel o t = l := by
+  unfold printedLabel; rw [h]
+
+theorem setFields_edge_eq (t : Tree) :
+    (t.setFields fun g => { g with edge := some (t.fields.edge.getD DEFAULT_EDGE) }) =
+    (t.setFields fun g => { g with edge := some (g.edge.getD DEFAULT_EDGE) }) := by
+  cases t <;> rfl
+
+
 end TT.Lemmas.Write
